@@ -602,6 +602,16 @@ type Mutation { m: Int }
 `
 
 var handRuleDocs = []string{
+	// introspection and the built-in directives in unusual places
+	`{ __typename a { __typename } u { __typename ... on A { __typename } } i { __typename } }`, `{ __schema { types { name } } __type(name: "A") { name fields { name } } }`,
+	`{ a { __schema { types { name } } } }`, `{ a { __type(name: "A") { name } } }`, `mutation { __typename m __schema { types { name } } }`, `subscription { __typename }`, `subscription { a __typename }`,
+	`{ __type { name } }`, `{ __type(name: 1) { name } }`, `{ __type(name: "A") }`, `{ __typename { x } }`, `{ __typename(x: 1) }`, `{ u { __typename x } }`, `{ t: __typename t: s }`, `{ __typenam }`, `{ a { __typenam } }`,
+	`query($n: String!) { __type(name: $n) { kind ofType { kind ofType { name } } } }`, `query($n: String) { __type(name: $n) { name } }`, `{ __schema { queryType { name } directives { name args { name defaultValue } locations } } }`,
+	`{ __type(name: "A") { fields(includeDeprecated: true) { name isDeprecated } enumValues(includeDeprecated: "yes") { name } nope } }`,
+	`query($f: Boolean!) { s @include(if: $f) @skip(if: $f) a @include(if: true) { x @skip(if: false) } ... @include(if: $f) { s } ...FI @skip(if: $f) } fragment FI on Query { s }`,
+	`query($f: Boolean) { s @include(if: $f) }`, `query($f: Boolean = true) { s @include(if: $f) }`, `query($f: Boolean = null) { s @skip(if: $f) }`, `{ s @include }`, `{ s @include(if: null) }`, `{ s @skip(if: true) @skip(if: false) }`,
+	`query @include(if: true) { s }`, `{ s @deprecated }`, `{ s @specifiedBy(url: "u") }`, `{ s @oneOf }`, `query($f: Boolean! @include(if: true)) { s @skip(if: $f) }`, `{ s @include(if: true, unless: false) }`,
+	`fragment FD on Query @skip(if: true) { s } { ...FD }`, `{ ... on Query @include(if: "yes") { s } }`,
 	// oneOf input objects whose single entry is a variable: undefined anywhere, defined by another operation only, in
 	// an unreached fragment; nullable with a default (the default does not make it non-null)
 	`{ one(x: {a: $nope}) }`, `query A { ...F1 } query B($v: Int!) { ...F1 } fragment F1 on Query { one(x: {a: $v}) }`, `{ s } fragment F2 on Query { one(x: {b: $w}) }`,
